@@ -84,9 +84,59 @@ def ensure_dirs():
         os.makedirs(d, exist_ok=True)
 
 
+def _ancestor_is_flock():
+    """True when this process runs under `flock /tmp/repo_mutant.lock ...` (development-time seeded-fault runs)."""
+    pid = os.getpid()
+    for _ in range(12):
+        try:
+            stat = open("/proc/%d/stat" % pid).read()
+            ppid = int(stat[stat.rindex(")") + 2:].split()[1])
+            cmd = open("/proc/%d/cmdline" % ppid).read()
+        except Exception:
+            return False
+        if "flock" in cmd and "repo_mutant.lock" in cmd:
+            return True
+        if ppid <= 1:
+            return False
+        pid = ppid
+    return False
+
+
+def _some_writer_exists():
+    try:
+        for d in os.listdir("/proc"):
+            if d.isdigit():
+                try:
+                    cmd = open("/proc/%s/cmdline" % d).read()
+                except Exception:
+                    continue
+                if cmd.startswith("flock") and "repo_mutant.lock" in cmd:
+                    return True
+    except Exception:
+        pass
+    return False
+
+
 class Lock:
+    """Serialises builds on the cache.  While developing, other sessions may temporarily edit /repo under
+    `flock /tmp/repo_mutant.lock`; builds that are not part of such a session wait (shared lock) so they
+    never compile somebody else's seeded fault."""
+
     def __enter__(self):
         ensure_dirs()
+        self.m = None
+        try:
+            if not _ancestor_is_flock():
+                # writer preference: while some session is waiting for (or holding) the exclusive lock, do not
+                # join the readers - flock itself would let a stream of readers starve the writer
+                for _ in range(1800):
+                    if not _some_writer_exists():
+                        break
+                    time.sleep(2)
+                self.m = open("/tmp/repo_mutant.lock", "a")
+                fcntl.flock(self.m, fcntl.LOCK_SH)
+        except OSError:
+            self.m = None
         self.f = open(os.path.join(BUILD, ".lock"), "w")
         fcntl.flock(self.f, fcntl.LOCK_EX)
         return self
@@ -94,6 +144,9 @@ class Lock:
     def __exit__(self, *a):
         fcntl.flock(self.f, fcntl.LOCK_UN)
         self.f.close()
+        if self.m:
+            fcntl.flock(self.m, fcntl.LOCK_UN)
+            self.m.close()
 
 
 def gen_version_header():
@@ -184,7 +237,8 @@ def compile_one(src_abs, key_name, flags, inc, index, kind="bc", force_src_text=
             # same dependency contents as an earlier build (e.g. an edit that was reverted)
             index[key_name] = dict(deps=ent["deps"], key=k, ok=True, compat=ent.get("compat", []))
             return dict(ok=True, bc=os.path.join(OBJ, k + ".bc"), cached=True, key=k, name=key_name, compat=ent.get("compat", []))
-    tmpd = tempfile.mkdtemp(prefix="verifcc_")
+    os.makedirs(os.path.join(CACHE, "work"), exist_ok=True)
+    tmpd = tempfile.mkdtemp(prefix="verifcc_", dir=os.path.join(CACHE, "work"))
     try:
         compat = []
         real_src = src_abs
